@@ -11,6 +11,7 @@ import (
 	"github.com/mimecast/dtail/internal/io/dlog"
 	"github.com/mimecast/dtail/internal/io/pool"
 	"github.com/mimecast/dtail/internal/protocol"
+	"github.com/mimecast/dtail/internal/vhook"
 )
 
 // Result returns a nicely formated result of the query from the group set.
@@ -169,9 +170,11 @@ func (*GroupSet) writeQueryFile(query *Query) error {
 	}
 	defer fd.Close()
 
+	vhook.Point("queryfile.write")
 	if _, err := fd.WriteString(query.RawQuery); err != nil {
 		return err
 	}
+	vhook.Point("queryfile.rename")
 	return os.Rename(tmpQueryFile, queryFile)
 }
 
@@ -198,6 +201,7 @@ func (g *GroupSet) WriteResult(query *Query, finalResult bool) error {
 		}
 	}
 
+	vhook.Point("outfile.open")
 	fd, err := g.getOutfileFD(query)
 	if err != nil {
 		return err
@@ -221,6 +225,7 @@ func (g *GroupSet) getOutfileFD(query *Query) (*os.File, error) {
 func (g *GroupSet) resultWriteUnformatted(query *Query, rows []result, fd *os.File, writeHeader, finalResult bool) error {
 	lastColumn := len(query.Select) - 1
 
+	vhook.Point("outfile.header")
 	if writeHeader {
 		if err := g.resultWriteUnformattedHeader(query, fd, lastColumn); err != nil {
 			return err
@@ -232,6 +237,7 @@ func (g *GroupSet) resultWriteUnformatted(query *Query, rows []result, fd *os.Fi
 		if i == query.Limit {
 			break
 		}
+		vhook.Point("outfile.row")
 		for j, value := range r.values {
 			if _, err := fd.WriteString(value); err != nil {
 				return err
@@ -247,9 +253,11 @@ func (g *GroupSet) resultWriteUnformatted(query *Query, rows []result, fd *os.Fi
 			return err
 		}
 	}
+	vhook.Point("outfile.rows.done")
 
 	if !query.Outfile.AppendMode && finalResult {
 		tmpOutfile := fmt.Sprintf("%s.tmp", query.Outfile.FilePath)
+		vhook.Point("outfile.rename")
 		if err := os.Rename(tmpOutfile, query.Outfile.FilePath); err != nil {
 			os.Remove(tmpOutfile)
 			return err
